@@ -94,7 +94,7 @@ def _weighted(refs):
     return e
 
 
-def index_model(kind, names, lo, length, fvariant="lin"):
+def index_model(kind, names, lo, length, fvariant="lin", whole=False):
     """One model of the loop-index family, or None when a subscript leaves 1..SIZE (checked with the
     reference evaluator) or the kind needs more subscripts than given."""
     forms = dict(index_forms())
@@ -110,10 +110,12 @@ def index_model(kind, names, lo, length, fvariant="lin"):
     for v in range(lo, hi + 1):  # keep the model inside pymoca's (and Modelica's) domain: 1 <= subscript <= SIZE
         for sub in subs:
             val = M.evn(sub, {var[1]: v, "n": hi}, funcs)
-            if int(val) != val or not 1 <= int(val) <= SIZE:
+            if int(val) != val or not 1 <= int(val) <= (hi if whole else SIZE):
                 return None
     pn = Decl("n", "Integer", "parameter", value=N(hi))
-    x, y, b = Decl("x", dims=(hi,)), Decl("y", dims=(SIZE,)), Decl("b")
+    # whole: the indexed array has exactly as many elements as the loop has iterations, so a permuting
+    # subscript visits the whole vector in another order
+    x, y, b = Decl("x", dims=(hi,)), Decl("y", dims=(hi if whole else SIZE,)), Decl("b")
     xi = ("idx", "x", (var,))
     yr = [("idx", "y", (sub,)) for sub in subs]
     fl = list(funcs.values())
@@ -170,6 +172,14 @@ def fam_index(tier):
         plans.append(("rhs", 2, (1, 2), every, "quad"))
         plans.append(("rhs", 3, (2,), every, "lin"))
     out, skipped = [], 0
+    # the whole vector visited in a non-identity order (array size = number of iterations)
+    for kind in ("rhs", "lhs", "der", "call"):
+        for combo in (("n+1-v",), ("n+1-v", "v")):
+            for length in (2, 3, 4):
+                m = index_model(kind, combo, 1, length, "lin", whole=True)
+                if m is not None:
+                    m.forms = combo
+                    out.append(("index-whole-" + kind, m))
     for kind, nsub, los, lengths, fv in plans:
         for combo in itertools.product(names, repeat=nsub):
             if fv != "lin" and not any(nm.startswith("f(") for nm in combo):
@@ -266,6 +276,31 @@ def generate_all(text, name):
     return built
 
 
+DECOY = """model Decoy
+  Real x(start = 1);
+  Real y;
+  input Real u;
+equation
+  der(x) = -3 * x + u;
+  y = 7 * x + 2;
+end Decoy;
+"""
+
+
+def _interleave_other_model():
+    """Between generating the settings of the model under test and reading their functions, another model is
+    compiled with expand_mx and its functions are built and called -- as a caller that compiles a batch of
+    models and evaluates them afterwards would do.  State that the representation options keep outside the
+    model object (per process, per class) would show up as a difference between settings."""
+    from pymoca import parser
+    from pymoca.backends.casadi import generator
+
+    opts = {"expand_mx": True, "unroll_loops": False, "inline_functions": False}
+    d = generator.generate(parser.parse(DECOY, bypass_cache=True), "Decoy", dict(opts))
+    d.simplify(opts)
+    evaluate(d, {"x": 1.5, "der(x)": 0.25, "y": -0.5, "u": 2.0, "time": 0.0})
+
+
 def close(a, b):
     if isinstance(a, (list, tuple)):
         return isinstance(b, (list, tuple)) and len(a) == len(b) and all(close(x, y) for x, y in zip(a, b))
@@ -319,6 +354,7 @@ def check(job):
         built = generate_all(text, model.name)
     except Exception as e:
         return {"viol": [("parse-raises:%s:%s" % (fam, common.exc_sig(e)), "the model does not parse: %r\n%s" % (e, label), case)], "n": 0, "nref": 0}
+    _interleave_other_model()
     base = built[DEFAULT]
     if isinstance(base, Exception):
         return {"viol": [("default-raises:%s:%s" % (fam, common.exc_sig(base)), "default options do not generate: %r\n%s" % (base, label), case)], "n": 0, "nref": 0}
